@@ -121,12 +121,21 @@ def discharge(obls, timeout_ms=20000, jobs=None, fallback=True):
         for i, x in zip(open_, r3):
             if x["verdict"] in ("sat", "unsat"):
                 results[i] = x
+    left = [i for i, (ob, r) in enumerate(zip(obls, results)) if r["verdict"] in ("unknown", "error") and fallback and ob.kind != "canary"]
+    if left:
+        from concurrent.futures import ThreadPoolExecutor
+
+        texts = {i: to_smt2(obls[i], 0) for i in left}  # z3's API is not thread safe: serialise first
+
+        def fb(i):
+            return i, cli_fallback(texts[i], min(timeout_ms / 1000.0, 20))
+
+        with ThreadPoolExecutor(max_workers=jobs) as ex:
+            for i, (v, nm) in ex.map(fb, left):
+                if v in ("sat", "unsat"):
+                    results[i] = dict(results[i], verdict=v, solver=nm)
     out = []
     for ob, r in zip(obls, results):
-        if r["verdict"] in ("unknown", "error") and fallback and ob.kind != "canary":
-            v, nm = cli_fallback(to_smt2(ob, 0), min(timeout_ms / 1000.0, 20))
-            if v in ("sat", "unsat"):
-                r = dict(r, verdict=v, solver=nm)
         r["obligation"] = ob
         out.append(r)
     return out
